@@ -107,6 +107,12 @@ func (t *tStructProto) structUnpack(m erpc.Message) error {
 		return err
 	}
 
+	// the headers arrive with the frame header: set status and metadata before the body is bound,
+	// because binding (reply, call and push) looks at the metadata
+	headers := t.tProtocol.GetReadHeaders()
+	m.Status(true).DecodeQuery(goutil.StringToBytes(headers[HeaderStatus]))
+	m.Meta().Parse(headers[HeaderMeta])
+
 	m.UnmarshalBody(nil)
 	s, ok := m.Body().(thrift.TStruct)
 	if !ok {
@@ -119,10 +125,6 @@ func (t *tStructProto) structUnpack(m erpc.Message) error {
 	if err = t.tProtocol.ReadMessageEnd(); err != nil {
 		return err
 	}
-
-	headers := t.tProtocol.GetReadHeaders()
-	m.Status(true).DecodeQuery(goutil.StringToBytes(headers[HeaderStatus]))
-	m.Meta().Parse(headers[HeaderMeta])
 
 	m.SetBodyCodec(codec.ID_THRIFT)
 	return m.SetSize(uint32(t.rwCounter.Readed()))
